@@ -109,13 +109,13 @@ func runIndexServer(ctx context.Context, opt indexServerOptions, args []string) 
 		handler = withLog(handler, log.New(l, "", log.LstdFlags))
 	}
 
-	http.Handle("/", handler)
-
-	// Start the server
-	return serve(ctx, opt.cmdServerOptions, addresses...)
+	// Start the server. The handler is the only one it has: the default mux
+	// also holds whatever handlers imported packages register on their own,
+	// like /debug/requests and /debug/events of golang.org/x/net/trace
+	return serve(ctx, opt.cmdServerOptions, handler, addresses...)
 }
 
-func serve(ctx context.Context, opt cmdServerOptions, addresses ...string) error {
+func serve(ctx context.Context, opt cmdServerOptions, handler http.Handler, addresses ...string) error {
 	tlsConfig := &tls.Config{}
 	if opt.mutualTLS {
 		tlsConfig.ClientAuth = tls.RequireAndVerifyClientCert
@@ -140,6 +140,7 @@ func serve(ctx context.Context, opt cmdServerOptions, addresses ...string) error
 		go func(a string) {
 			server := &http.Server{
 				Addr:      a,
+				Handler:   handler,
 				TLSConfig: tlsConfig,
 				ErrorLog:  log.New(stderr, "", log.LstdFlags),
 			}
